@@ -4,6 +4,7 @@ From V.lib Require Import Base.
 From V.c13 Require Import C13Spec C13Model.
 From V.c17 Require Import C17Spec C17Model C17RbspProofs C17WriterProofs C17EbspProofs.
 From V.c17 Require Import C17TypedModel C17BitProofs C17TypedProofs C17FswProofs C17ComposeProofs.
+From V.c17 Require Import C17HistModel C17HistProofs.
 
 (* the 0xFF-run code of payload type (Go uint accumulator) and payload size (uint32
    accumulator) decodes to the value and leaves the rest of the input untouched: every value
@@ -173,3 +174,60 @@ Theorem C17_timecode_in_nalu : forall cs pre post,
   /\ tc_decode (tc_payload cs) = Ok cs.
 Proof. exact timecode_in_nalu. Qed.
 Print Assumptions C17_timecode_in_nalu.
+
+(* ---------------------------------------------------------------- any message value, however it was obtained *)
+(* A typed message value is the record of its exported fields (C17HistModel.typed); the Go values are
+   reached through HISTORIES: a struct literal or a decoder (DecodeXxx, DecodeSEIMessage,
+   avc/hevc.ParseSEINalu), then any number of steps: SEdit f (ANY change of the exported fields),
+   SCopy (struct copy), SRedecode (serialise, decode, go on with the result).
+   Size()/Payload()/the written NAL unit depend on the final exported field record only: equal field
+   records, whatever histories produced them, give equal observables.  Definitional in the model;
+   this is the statement the correspondence (H lines: observables of the final Go value of a generated
+   history vs typed_observe of its final exported fields) ties to the code. *)
+Theorem C17_payload_depends_on_fields : forall o1 ss1 o2 ss2 t1 t2,
+  run_history o1 ss1 = Ok t1 -> run_history o2 ss2 = Ok t2 -> t1 = t2 ->
+  typed_payload t1 = typed_payload t2 /\ typed_size t1 = typed_size t2 /\ typed_observe t1 = typed_observe t2.
+Proof. exact payload_depends_on_fields. Qed.
+Print Assumptions C17_payload_depends_on_fields.
+
+(* hence the typed round trip for ANY message value: the final value of any history, if canonical,
+   decodes from its own payload to itself, Size() is the payload length, and WriteSEIMessages +
+   ExtractSEIData return its (type, payload) *)
+Theorem C17_history_roundtrip : forall o ss t,
+  run_history o ss = Ok t -> typed_canonical t = true ->
+  typed_decode_like t (typed_payload t) = Ok t /\
+  lenN (typed_payload t) = typed_size t /\
+  extract_sei_data (write_sei_messages [typed_msg t]) = XOk [(typed_type t, typed_payload t)].
+Proof. exact history_roundtrip. Qed.
+Print Assumptions C17_history_roundtrip.
+
+(* when every edit keeps the value canonical, every intermediate value is canonical, the re-decode
+   steps are no-ops, and the history ends (without error) in the edits applied to the start value *)
+Theorem C17_canonical_history : forall ss t,
+  Forall step_keeps_canonical ss -> typed_canonical t = true ->
+  run_steps ss t = Ok (apply_edits ss t) /\ typed_canonical (apply_edits ss t) = true.
+Proof. exact canonical_history_steps. Qed.
+Print Assumptions C17_canonical_history.
+
+(* any canonical typed message between any other messages of an SEI NAL unit (generalises
+   C17_timecode_in_nalu to the four typed messages) *)
+Theorem C17_typed_in_nalu : forall t pre post,
+  typed_canonical t = true -> msgs_ok pre = true -> msgs_ok post = true ->
+  extract_sei_data (write_sei_messages (pre ++ typed_msg t :: post))
+  = XOk (observed pre ++ (typed_type t, typed_payload t) :: observed post).
+Proof. exact typed_in_nalu. Qed.
+Print Assumptions C17_typed_in_nalu.
+
+(* a history of the kind the seeded change breaks: decode a picture timing message, copy it, change
+   NFrames and pict_struct of the copy, re-decode: the final value is canonical and its payload is the
+   serialisation of the EDITED fields (28 00 4d 00), not the decoded bytes (08 80 05 00) *)
+Example C17_history_hyp :
+  let like := TPicTiming (mkPT None 0 0 []) in
+  let f t := match t with
+             | TPicTiming (mkPT h tl _ [c]) =>
+                 TPicTiming (mkPT h tl 2 [mkClockAvc true (a_cttype c) false 0 false false false 77 false 0 false 0 false 0 0 0%Z])
+             | _ => t
+             end in
+  exists t, run_history (ODecode like [8; 128; 5; 0]) [SCopy; SEdit f; SRedecode] = Ok t /\
+            typed_canonical t = true /\ typed_payload t = [40; 0; 77; 0].
+Proof. eexists. split; [vm_compute; reflexivity|]. split; vm_compute; reflexivity. Qed.
